@@ -15,6 +15,7 @@ from fractions import Fraction
 import mpmath
 import torch
 
+import bigbatch
 import common
 import lattice
 import terms
@@ -60,7 +61,8 @@ def long_batch(chk, st, key, nv, n, p_exact, amp, det):
     arbitrary order.  Each row's value is that row's value."""
     D = 2 ** nv
     r = random.Random(n)
-    idx = [r.randrange(D) for _ in range(D + 1 + n % (2 * D + 3))]
+    m = D + 1 + n % (2 * D + 3) if n % 8 else bigbatch.size(n // 8)      # now and then thousands of rows
+    idx = [r.randrange(D) for _ in range(m)]
     vb = lattice.space(nv)[idx]
     prob, am, psi = st.probability(vb), st.amplitude(vb), st.psi(vb)
     ok = True
